@@ -267,6 +267,13 @@ def check_arm_table(cx, fn, hg, site, acc, rep):
             if isinstance(t, tuple) and t and t[0] == 'call' and str(t[1]).startswith('crate::'):
                 provider = t
     lit_ok = isinstance(vt, tuple) and vt[0] == 'call' and 'Literal::i128' in str(vt[1]) and zips and vt[2] == zips[0]
+    if lit_ok and not str(vt[1]).endswith('Literal::i128_suffixed'):
+        # an unsuffixed literal is typed by inference in the user's crate: both operands of the comparison are literals, so they fall
+        # back to i32 and every discriminant outside the i32 range wraps silently (no overflowing_literals lint inside an expansion)
+        rep.bad('DISCR-MATCH', where, 'arm-value-type',
+                'the discriminant literals are emitted with `%s`: without the `i128` suffix the compared values are inferred as i32 and discriminants outside that range wrap' % str(vt[1]).split('::')[-1],
+                lf.tmpl.file, lf.tmpl.line)
+        return
     if not (lit_ok and provider and provider[2:] == (('param', 'ast'),)):
         rep.bad('DISCR-MATCH', where, 'arm-value-source',
                 'the discriminant arm value is not the literal of this variant\'s entry in the declared-discriminant list (term: %s)' % term_s(vt),
@@ -329,6 +336,11 @@ def check_provider(cx, f, rep):
     pe = pushes[0]
     # `let value = match counter { Some(v) => v, None => return Err(..) }` before the push leaves a "counter is Some" context
     survived = [c for c in pe.ctx if c['k'] == 'survive' and c['scrut']['k'] == 'Path' and all(pat_s(p_).startswith('Some(') for p_ in c['pats'])]
+    # the same as one statement: `match counter { Some(value) => { values.push(value); counter = value.checked_add(1); }, None => return Err(..) }`
+    armsome = [c for c in pe.ctx if c['k'] == 'arm' and c['scrut']['k'] == 'Path' and c['narms'] == 2 and not c.get('guard') and pat_s(c['pat']).startswith('Some(')
+               and c['pat'].get('k') == 'TupleStruct' and len(c['pat']['elems']) == 1 and c['pat']['elems'][0].get('k') == 'Ident'
+               and sorted(pat_s(p_).split('(')[0] for p_ in (c.get('all_pats') or [])) in (['None', 'Some'],)]
+    survived = survived + armsome
     extra = [c for c in pe.ctx if c is not loop and not (c['k'] == 'iflet' and 'Data::Enum' in pat_s(c['pat'])) and not any(c is s_ for s_ in survived)]
     if extra:
         rep.bad('DISCR-VALUE', where, 'push-guards', 'the discriminant of a variant is recorded only under extra conditions: %s' % ctx_s(tuple(extra)), f.file, pe.line)
@@ -362,6 +374,11 @@ def check_provider(cx, f, rep):
                     break
                 nb = st_[0]['expr']
             refusing = nb['k'] == 'Return' and nb.get('expr') is not None and es(nb['expr']).startswith('Err')
+    if armsome and arg['path']['s'] == armsome[-1]['pat']['elems'][0]['name'] and cd is not None and not cd.assigns:
+        recv = armsome[-1]['scrut']['path']['s']
+        mid_ = armsome[-1]['match_id']
+        refusing = any(ev.kind == 'exit' and ev.how == 'return' and ev.value is not None and es(ev.value).startswith('Err')
+                       and any(c['k'] == 'arm' and c['match_id'] == mid_ and pat_s(c['pat']) == 'None' for c in ev.ctx) for ev in fw.events)
     if cd is not None and recv is not None and any(c is loop for c in cd.ctx) and not cd.assigns:
         if not refusing:
             rep.bad('DISCR-VALUE', where, 'counter-overflow', 'a variant after the value i128::MAX is given `%s` instead of being refused: two variants get one discriminant value' % es(cd.init)[:60], f.file, cd.line)
@@ -430,6 +447,30 @@ def check_provider(cx, f, rep):
             return
     if len(explicit) < 2:
         rep.bad('DISCR-VALUE', where, 'explicit-missing', 'explicit discriminants (positive and negated literals) are not both handled', f.file, f.line)
+        return
+    # what the callers get is that list itself: every success result is `Ok(<the vector the values were pushed to>)`, and nothing
+    # else touches the vector (a re-ordering, ranking or mapping of the values is another function of the variants)
+    from ..restable import result_leaves
+    from ..terms import strip_refs as _sr
+    vr = _sr(pe.recv)
+    vname = vr['path']['s'] if vr['k'] == 'Path' else None
+    for v_, _ctx, _how, ev_ in result_leaves(cx, f):
+        txt_ = es(v_).replace(' ', '')
+        if txt_.startswith('Err(') or (v_['k'] == 'Call' and es(v_['func']).split('::')[-1] == 'Err'):
+            continue
+        if vname is None or txt_ != 'Ok(%s)' % vname:
+            rep.bad('DISCR-VALUE', where, 'result', 'the provider returns `%s`, not the list of discriminant values it computed (`Ok(%s)`)' % (es(v_)[:60], vname), f.file, ev_.line if ev_ is not None else f.line)
+            return
+    vd = pe.scope.lookup(vname) if vname else None
+    for ev_ in fw.events:
+        if ev_ is pe:
+            continue
+        if ev_.kind == 'mcall' and _sr(ev_.recv)['k'] == 'Path' and _sr(ev_.recv)['path']['s'] == vname and ev_.scope.lookup(vname) is vd \
+                and ev_.method not in ('len', 'is_empty', 'iter', 'capacity', 'reserve'):
+            rep.bad('DISCR-VALUE', where, 'result', 'the list of discriminant values is changed after it was computed: `.%s(..)`' % ev_.method, f.file, ev_.line)
+            return
+    if vd is not None and vd.assigns:
+        rep.bad('DISCR-VALUE', where, 'result', 'the list of discriminant values is re-assigned', f.file, vd.assigns[0].line)
         return
     rep.ok('DISCR-VALUE', where, {'provider': where, 'counter': cd.name, 'explicit_assignments': [t for _, t in explicit], 'step': incs[0][1]})
 
